@@ -200,6 +200,10 @@ class C19(Check):
                         for it in c["iters"]:
                             yield {"est": "cp", "n": n, "xd": xd, "yd": list(yd), "rank": rank, "reg": group["reg"],
                                    "rs": rs, "iters": it, "seed": seed}
+                            if rs == c["rstates"][0]:
+                                # the same estimator object first fitted (and used) on other data of the same shape, then refitted
+                                yield {"est": "cp", "n": n, "xd": xd, "yd": list(yd), "rank": rank, "reg": group["reg"],
+                                       "rs": rs, "iters": it, "seed": seed, "refit": True}
         elif est == "tucker":
             for yd in c["tk_yd"]:
                 for ranks in tucker_ranks(len(xd), tier):
@@ -207,6 +211,9 @@ class C19(Check):
                         for it in c["iters"]:
                             yield {"est": "tucker", "n": n, "xd": xd, "yd": list(yd), "ranks": list(ranks),
                                    "reg": group["reg"], "rs": rs, "iters": it, "seed": seed}
+                            if rs == c["rstates"][0]:
+                                yield {"est": "tucker", "n": n, "xd": xd, "yd": list(yd), "ranks": list(ranks),
+                                       "reg": group["reg"], "rs": rs, "iters": it, "seed": seed, "refit": True}
         else:
             yd, nc = list(group["yd"]), group["nc"]
             base = {"est": "plsr", "n": n, "xd": xd, "yd": yd, "nc": nc, "off": group["off"], "seed": seed}
@@ -251,6 +258,17 @@ class C19(Check):
                                     random_state=case["rs"], verbose=0)
         X0, y0 = X.copy(), y.copy()
         ctx.count("fits")
+        if case.get("refit"):
+            # history: fit + predict on other data first; everything checked below must describe the SECOND fit
+            try:
+                Xa = 4.0 * V.generic((n,) + xd, o + 31)
+                ya = np.tensordot(Xa, V.ints(xd + yd, o + 35, 2, nonzero=True), axes=len(xd)) + 0.1 * V.generic((n,) + yd, o + 32)
+                model.fit(Xa, ya)
+                model.predict(Xa)
+                ctx.count("refit-histories")
+            except Exception as e:
+                ctx.count(f"guarded_out:first-fit-raises:{name}/{type(e).__name__}")
+                return
         try:
             model.fit(X, y)
         except Exception as e:
